@@ -168,6 +168,103 @@ class K:
         return ("heap", self.t(tgt, depth + 1), ())
 
 
+
+class Items(set):
+    """the summary items; additionally remembers, per effect signature (item without its guard tuple), the exact path conditions (a DNF over canonical
+    literals) under which the effect happens - used only when the syntactic comparison fails"""
+
+    def __init__(self):
+        super().__init__()
+        self.exact = {}
+        self.cur = None
+        self.cur_extra = frozenset()
+
+    def add(self, it):
+        super().add(it)
+        if self.cur is not None:
+            self.exact.setdefault(it[:-1], []).extend([c | self.cur_extra for c in self.cur])
+
+
+FLIP = {"Eq": "Ne", "Ne": "Eq", "Lt": "Ge", "Ge": "Lt", "Gt": "Le", "Le": "Gt"}
+
+
+def neg_lit(l):
+    if l[0] == "cmp":
+        return ("cmp", FLIP[l[1]], l[2], l[3])
+    if l[0] == "bool":
+        return ("bool", l[1], not l[2])
+    if l[0] == "is":
+        return ("is", l[1], l[2], not l[3])
+    if l[0] == "discr" and l[2][0] == "eq":
+        return ("discr", l[1], ("ne", (l[2][1],)))
+    if l[0] == "discr" and l[2][0] == "ne" and len(l[2][1]) == 1:
+        return ("discr", l[1], ("eq", l[2][1][0]))
+    if l[0] == "not":
+        return l[1]
+    return ("not", l)
+
+
+def conj_unsat(c):
+    """a conjunction of canonical literals is contradictory: complementary boolean literals, incompatible discriminants, or infeasible comparisons"""
+    from order import infeasible
+    c = set(c)
+    for l in c:
+        if neg_lit(l) in c:
+            return True
+    by = {}
+    for l in c:
+        if l[0] == "discr":
+            by.setdefault(repr(l[1]), []).append(l[2])
+    for rels in by.values():
+        eqs = set(r[1] for r in rels if r[0] == "eq")
+        if len(eqs) > 1:
+            return True
+        for r in rels:
+            if r[0] == "ne" and eqs & set(r[1]):
+                return True
+    cmps = [l for l in c if l[0] == "cmp"]
+    try:
+        return bool(cmps) and infeasible(cmps)
+    except Exception:
+        return False
+
+
+def dnf_simplify(d, cap=48):
+    d = [frozenset(c) for c in d]
+    d = [c for c in set(d) if not conj_unsat(c)]
+    changed = True
+    while changed and len(d) <= cap:
+        changed = False
+        d = [c for c in d if not any(o < c for o in d)]       # absorption
+        for i, a in enumerate(d):
+            for b in d[i + 1:]:
+                da, db = a - b, b - a
+                if len(da) == 1 and len(db) == 1 and neg_lit(next(iter(da))) == next(iter(db)):
+                    d = [c for c in d if c not in (a, b)] + [a & b]
+                    changed = True
+                    break
+            if changed:
+                break
+    return d
+
+
+def dnf_implies(A, B, budget=4000):
+    """every disjunct of A implies the disjunction B: a and not B is contradictory (not B = one negated literal from every disjunct of B)"""
+    B = [sorted(b, key=repr) for b in B]
+    n = [0]
+
+    def refute(S, i):
+        n[0] += 1
+        if n[0] > budget:
+            return False
+        if conj_unsat(S):
+            return True
+        if i == len(B):
+            return False
+        return all(refute(S | {neg_lit(l)}, i + 1) for l in B[i])
+    return all(refute(frozenset(a), 0) for a in A)
+
+
 def sync_only_fact(f):
     s = show(f)
     if f[0] == "bool" and f[2] is False and tag(f[1]) == "field" and f[1][2] == "ro":
@@ -195,7 +292,7 @@ def found_ourselves(f):
 def summarise(ctx, b, flavour):
     ev, res = ctx.eval(b, no_inline=NOINLINE + (r"::alloc_in$", r"::alloc_aligned_bytes_in$", r"Memory::<.*>::clear$", r"get_aligned_pointer_mut$"))
     k = K(res, b, ctx)
-    items = set()
+    items = Items()
     removed_blocks = set()
     def project(fs):
         """single-thread projection of a fact set -> (canonical guard strings, infeasible).  A CAS whose expected value was just loaded from the
@@ -229,6 +326,8 @@ def summarise(ctx, b, flavour):
                 if f[2] in (("eq", 0), ("ne", (1,))):
                     infeasible = True
                 continue
+            if f[0] == "discr" and tag(f[1]) == "call" and isinstance(f[1][1], str) and f[1][1].endswith("checked_sub"):
+                continue    # carried by the comparison it implies (sym.implied_facts): Some <=> b <= a
             if f[0] == "discr" and tag(f[1]) == "filter":
                 opt, pv = f[1][1], f[1][2]
                 if f[2] in (("eq", 0), ("ne", (1,))) and tag(opt) == "call" and isinstance(opt[1], str) and opt[1].endswith("checked_add"):
@@ -265,6 +364,75 @@ def summarise(ctx, b, flavour):
         memo[bb] = (gs, inf)
         return memo[bb]
 
+    def lits(fs):
+        """like project(), but the canonical literals themselves"""
+        gs, inf = project(fs)
+        return gs, inf
+
+    LIT = {}
+
+    def project_lits(fs):
+        # project() works on repr strings for the set comparison; the semantic comparison needs the tuples: redo the canonicalisation
+        out = set()
+        inf = False
+        for f in fs:
+            g1, i1 = project([f])
+            inf = inf or i1
+            if not g1:
+                continue
+            # recover tuples: canonicalise the fact itself (CAS facts were turned into mem comparisons inside project)
+            for r in g1:
+                if r not in LIT:
+                    LIT[r] = eval_lit(r, f)
+                out.add(LIT[r])
+        return out, inf
+
+    def eval_lit(r, f):
+        cas = None
+        if f[0] == "discr" and tag(f[1]) == "cas" and f[2][0] == "eq":
+            cas, failed = f[1], f[2][1] == 1
+        elif f[0] == "is" and tag(f[2]) == "cas":
+            cas, failed = f[2], (f[1] == "is_err") == bool(f[3])
+        if cas is not None:
+            m_ = ("mem", k.place(cas[2]))
+            a, b_ = (m_, k.t(cas[3]))
+            cand = [("cmp", "Ne" if failed else "Eq", a, b_), ("cmp", "Ne" if failed else "Eq", b_, a)]
+            for c_ in cand:
+                if repr(c_) == r:
+                    return c_
+        if f[0] == "discr" and tag(f[1]) == "filter":
+            for g in implied_facts([(f[1][2], ("eq", 0))]):
+                if repr(k.t(g)) == r:
+                    return k.t(g)
+        return k.t(f)
+
+    dmemo = {}
+
+    def block_dnf(bb):
+        """exact path condition of a top-frame block on one thread, as a DNF (list of frozensets of canonical literals); None when it gets too large"""
+        if bb in dmemo:
+            return dmemo[bb]
+        dmemo[bb] = None
+        if bb == 0:
+            dmemo[bb] = [frozenset()]
+            return dmemo[bb]
+        preds = [p for p in b.pred[bb] if (p, bb) not in back and p in b.reachable and not b.blocks[p]["cleanup"]]
+        out = []
+        for p in preds:
+            pd = block_dnf(p)
+            if pd is None:
+                dmemo[bb] = None
+                return None
+            gp = ev.guards(res, p)
+            edge = [g for g in ev.guards_edge(res, p, bb) if g not in gp]
+            el, einf = project_lits(implied_facts(edge))
+            if einf:
+                continue
+            out.extend(c | frozenset(el) for c in pd)
+        out = dnf_simplify(out)
+        dmemo[bb] = out if len(out) <= 48 else None
+        return dmemo[bb]
+
     for e in res.log:
         if e["chain"] and e["kind"] not in ("store",) and not (e["kind"] == "call" and (e.get("atomic") or e.get("effect"))):
             continue
@@ -276,6 +444,16 @@ def summarise(ctx, b, flavour):
         if infeasible or tinf:
             continue
         guards = tuple(sorted(gs | tg))
+        # exact condition: the top frame's path condition and, for effects inside inlined callees, the callee frames' own guards
+        bd = block_dnf(top["bb"])
+        if bd is None:
+            items.cur = None
+        else:
+            all_l, _ = project_lits(ctx.facts_of(ev, e))
+            top_l, _ = project_lits(implied_facts(ev.guards(res, top["bb"])))
+            inner = frozenset(all_l - top_l) if e is not top else frozenset()
+            items.cur = [c | inner for c in bd]
+        items.cur_extra = frozenset()
         kind = e["kind"]
         if kind == "ret0" and not e["chain"]:
             v = e["value"]
@@ -297,6 +475,7 @@ def summarise(ctx, b, flavour):
                 # a conditional store: it happens exactly when the word equals the expected value
                 m_ = ("mem", k.place(e["target"]))
                 g2 = tuple(sorted(set(guards + (repr(("cmp", "Eq", m_, k.t(exp))), repr(("cmp", "Eq", k.t(exp), m_))))))
+                items.cur_extra = frozenset([("cmp", "Eq", m_, k.t(exp)), ("cmp", "Eq", k.t(exp), m_)])
             emit_write(items, k.place(e["target"]), k.t(e["new"]), g2)
         elif kind == "call" and e.get("atomic") in ("fetch_add", "fetch_sub"):
             if "refs" in show(e["target"]):
@@ -344,6 +523,24 @@ def sib(ctx):
         ss, su = summarise(ctx, bs[0], "sync"), summarise(ctx, bu[0], "unsync")
         only_s, only_u = sorted(ss - su, key=repr), sorted(su - ss, key=repr)
         ok = not only_s and not only_u
+        how = ""
+        if not ok:
+            # the same effects under conditions that are spelled or structured differently (merged arms, an extra pre-check): compare the exact path
+            # conditions of every differing effect as formulas - each disjunct of one side must imply the disjunction of the other side
+            sigs = set(it[:-1] for it in only_s) | set(it[:-1] for it in only_u)
+            sem = True
+            for sig in sigs:
+                A, B = ss.exact.get(sig), su.exact.get(sig)
+                if not A or not B:
+                    sem = False
+                    break
+                A, B = dnf_simplify(A), dnf_simplify(B)
+                if not (dnf_implies(A, B) and dnf_implies(B, A)):
+                    sem = False
+                    break
+            if sem:
+                ok = True
+                how = " (%d effect(s) under differently structured but equivalent conditions)" % len(sigs)
         yield Ob(key_of("C11-SIB", key, "summary"), ok,
-                 "%d items each" % len(ss) if ok else "summaries differ: only in sync: %s | only in unsync: %s" % ([fmt_item(i) for i in only_s[:3]], [fmt_item(i) for i in only_u[:3]]),
+                 ("%d items each%s" % (len(ss), how)) if ok else "summaries differ: only in sync: %s | only in unsync: %s" % ([fmt_item(i) for i in only_s[:3]], [fmt_item(i) for i in only_u[:3]]),
                  bs[0].loc(), {"only_sync": [fmt_item(i) for i in only_s[:6]], "only_unsync": [fmt_item(i) for i in only_u[:6]], "items": len(ss)})
